@@ -397,4 +397,231 @@ Proof.
       unfold chunk_stored. rewrite chunk_at_app by lia. apply Hb0. lia.
 Qed.
 
+(* the roots alone: no assumption on the bucket, no collision case *)
+Lemma add_at_roots : forall n ys x m, length ys = n -> h32 x ->
+  exists m', add_at H (spec_roots ys) x m = HOk (spec_roots (ys ++ [x]), m').
+Proof.
+  induction n as [n IH] using lt_wf_ind. intros ys x m Hn Hx.
+  destruct ys as [|y ys'].
+  - exists m. cbn [app]. rewrite spec_roots_nil. cbn [add_at].
+    rewrite (node_add_ok [] x Hx) by (cbn; lia). reflexivity.
+  - set (zs := y :: ys') in *. assert (Nz : zs <> []) by discriminate.
+    rewrite (spec_roots_cons zs Nz). cbn [add_at].
+    rewrite (node_add_ok (rem16 zs) x Hx) by (rewrite rem16_length; lia).
+    unfold node_full, max_children. rewrite app_length, rem16_length. cbn [length].
+    assert (Nz' : zs ++ [x] <> []) by (destruct zs; discriminate).
+    destruct (Nat.eqb_spec (length zs mod 16 + 1) 16) as [E16|E16].
+    + assert (Hm : (length zs + 1) mod 16 = 0) by lia.
+      unfold node_hash. destruct (rem16 zs ++ [x]) as [|r0 rr] eqn:Er; [destruct (rem16 zs); discriminate|].
+      rewrite <- Er. fold (hc (rem16 zs ++ [x])). unfold node_bytes.
+      set (v := concat (rem16 zs ++ [x])). change (hc (rem16 zs ++ [x])) with (H v).
+      destruct (IH (length (cl1 zs)) ltac:(rewrite cl1_length; subst n; lia) (cl1 zs) (H v) (bm_set (H v) v m)
+                  eq_refl (H_len v)) as (m' & E).
+      exists m'. rewrite (spec_roots_cons _ Nz'), rem16_snoc_carry, cl1_snoc_carry by assumption.
+      fold v. change (hc (rem16 zs ++ [x])) with (H v).
+      match goal with |- context [add_at ?a ?b ?c ?d] =>
+        replace (add_at a b c d) with (@HOk (list node * bmap bytes) (spec_roots (cl1 zs ++ [H v]), m'))
+          by (symmetry; exact E) end.
+      reflexivity.
+    + exists m. rewrite (spec_roots_cons _ Nz'), rem16_snoc_same, cl1_snoc_same by lia. reflexivity.
+Qed.
+
+(* ------------------------------------------------------------------ *)
+(* layers, the root, the stored tree                                    *)
+
+Fixpoint layer_at (ys : list bytes) (n : nat) : list bytes :=
+  match n with O => ys | S n' => layer_at (layer1 ys) n' end.
+
+Fixpoint top_f (fuel : nat) (ys : list bytes) : option bytes :=
+  match fuel with
+  | O => None
+  | S f => match ys with [] => None | [y] => Some y | _ => top_f f (layer1 ys) end
+  end.
+Definition spec_root (ys : list bytes) : option bytes := top_f (S (length ys)) ys.
+Definition spec_header (xs : list bytes) : header := mkHeader (spec_root xs) (N.of_nat (length xs)).
+
+Lemma nchunks_lt n : 2 <= n -> nchunks n < n.
+Proof. unfold nchunks. lia. Qed.
+
+Lemma top_f_fuel : forall f ys, length ys < f -> top_f f ys = spec_root ys.
+Proof.
+  induction f as [f IH] using lt_wf_ind. intros ys Hl. unfold spec_root.
+  destruct f as [|f]; [lia|]. cbn [top_f].
+  destruct ys as [|y [|y2 ys']]; try reflexivity.
+  set (zs := y :: y2 :: ys') in *.
+  assert (L2 : 2 <= length zs) by (subst zs; cbn [length]; lia).
+  pose proof (nchunks_lt _ L2) as Hc. rewrite <- layer1_length in Hc.
+  rewrite (IH f) by lia. rewrite (IH (length zs)) by lia. reflexivity.
+Qed.
+
+Lemma spec_root_nil : spec_root [] = None. Proof. reflexivity. Qed.
+Lemma spec_root_one y : spec_root [y] = Some y. Proof. reflexivity. Qed.
+Lemma spec_root_step ys : 2 <= length ys -> spec_root ys = spec_root (layer1 ys).
+Proof.
+  intro L2. unfold spec_root at 1. cbn [top_f].
+  destruct ys as [|y [|y2 ys']]; cbn [length] in L2; try lia.
+  apply top_f_fuel. rewrite layer1_length. apply nchunks_lt. cbn [length]. lia.
+Qed.
+
+Definition tree_stored (m : bmap bytes) (ys : list bytes) : Prop :=
+  forall n q, 2 <= length (layer_at ys n) -> q < nchunks (length (layer_at ys n)) ->
+              chunk_stored m (layer_at ys n) q.
+
+Lemma tree_stored_unfold m ys :
+  tree_stored m ys <->
+  ((2 <= length ys -> forall q, q < nchunks (length ys) -> chunk_stored m ys q) /\ tree_stored m (layer1 ys)).
+Proof.
+  unfold tree_stored. split.
+  - intro T. split; [intros L q Hq; exact (T 0 q L Hq)|intros n q; exact (T (S n) q)].
+  - intros [A B] [|n] q; cbn [layer_at]; [auto|apply B].
+Qed.
+
+Lemma layer_at_small ys : length ys <= 1 -> forall n, length (layer_at ys n) <= 1.
+Proof.
+  intros Hl n. revert ys Hl. induction n; intros ys Hl; cbn [layer_at]; auto.
+  apply IHn. rewrite layer1_length. unfold nchunks. lia.
+Qed.
+
+Lemma tree_stored_small m ys : length ys <= 1 -> tree_stored m ys.
+Proof. intros Hl n q L. pose proof (layer_at_small ys Hl n). lia. Qed.
+
+Lemma tree_stored_ext m m' ys : ext m m' -> tree_stored m ys -> tree_stored m' ys.
+Proof. intros He T n q L Hq. apply He. apply T; auto. Qed.
+
+Lemma layer1_single ws : 1 <= length ws <= 16 -> layer1 ws = [hc ws].
+Proof.
+  intro Hl. unfold layer1. replace (nchunks (length ws)) with 1 by (unfold nchunks; lia).
+  cbn [seq map]. f_equal. f_equal. unfold chunk_at. cbn [Nat.mul skipn]. apply firstn_all2. lia.
+Qed.
+
+Lemma layer1_full zs : length zs mod 16 = 0 -> layer1 zs = cl1 zs.
+Proof.
+  intro Hm. unfold layer1, cl1. replace (nchunks (length zs)) with (length zs / 16) by (unfold nchunks; lia).
+  reflexivity.
+Qed.
+
+Lemma layer1_partial zs o : 1 <= length zs mod 16 + length o <= 16 ->
+  layer1 (zs ++ o) = cl1 zs ++ [hc (rem16 zs ++ o)].
+Proof.
+  intro Hl. unfold layer1, cl1. rewrite app_length.
+  replace (nchunks (length zs + length o)) with (S (length zs / 16)) by (unfold nchunks; lia).
+  rewrite seq_S, map_app. cbn [map Nat.add]. f_equal.
+  - apply map_ext_in. intros q Hq. apply in_seq in Hq. f_equal. apply chunk_at_app. lia.
+  - f_equal. f_equal. apply chunk_at_last. lia.
+Qed.
+
+Definition olist (c : option bytes) : list bytes := match c with Some x => [x] | None => [] end.
+
+Lemma spec_roots_cl1_nil zs : length zs < 16 -> spec_roots (cl1 zs) = [].
+Proof.
+  intro Hl. assert (E : cl1 zs = []).
+  { apply length_zero_iff_nil. rewrite cl1_length. lia. }
+  now rewrite E.
+Qed.
+
+Lemma rem16_short zs : length zs < 16 -> rem16 zs = zs.
+Proof. intro Hl. unfold rem16. replace (length zs / 16) with 0 by lia. reflexivity. Qed.
+
+(* GetMerkleHeader / Finalize on the roots of ys with a carry-in c:
+   the layered root of ys ++ [c]; Finalize leaves the whole tree in the bucket *)
+Lemma carry_loop_ok : forall n ys c m store,
+  length ys = n -> Forall h32 ys -> Forall h32 (olist c) ->
+  exists m', carry_loop H store (spec_roots ys) c m = HOk (spec_root (ys ++ olist c), m') /\
+    (store = false -> m' = m) /\
+    (store = true -> sound m -> blocks_stored m ys ->
+       (sound m' /\ ext m m' /\ tree_stored m' (ys ++ olist c)) \/ collision).
+Proof.
+  induction n as [n IH] using lt_wf_ind. intros ys c m store Hn Fy Fc.
+  destruct ys as [|y ys'].
+  - exists m. rewrite spec_roots_nil. cbn [carry_loop app].
+    split; [destruct c; reflexivity|]. split; [auto|]. intros _ Hs _. left.
+    split; [auto|]. split; [apply ext_refl|]. apply tree_stored_small. destruct c; cbn; lia.
+  - set (zs := y :: ys') in *. assert (Nz : zs <> []) by discriminate.
+    rewrite (spec_roots_cons zs Nz). cbn [carry_loop].
+    set (r' := rem16 zs ++ olist c).
+    assert (Er' : carry_in (rem16 zs) c = HOk r').
+    { subst r'. unfold carry_in. destruct c as [c0|]; cbn [olist].
+      - inversion Fc; subst. apply node_add_ok; auto. rewrite rem16_length. lia.
+      - now rewrite app_nil_r. }
+    rewrite Er'.
+    assert (Lr : length r' = length zs mod 16 + length (olist c))
+      by (subst r'; now rewrite app_length, rem16_length).
+    assert (Lc : length (olist c) <= 1) by (destruct c; cbn; lia).
+    assert (Fr : Forall h32 r') by (subst r'; apply Forall_app; split; auto using rem16_h32).
+    destruct (Nat.lt_ge_cases (length zs) 16) as [Hsh|Hlg].
+    + (* the last root *)
+      rewrite (spec_roots_cl1_nil zs Hsh).
+      assert (Ers : r' = zs ++ olist c) by (subst r'; now rewrite rem16_short).
+      rewrite <- Ers. unfold node_len.
+      destruct (Nat.eqb_spec (length r') 1) as [E1|E1].
+      * exists m. destruct r' as [|w [|w2 r2]]; cbn [length] in E1; try lia.
+        cbn [node_get nth_error]. rewrite spec_root_one.
+        split; [reflexivity|]. split; [auto|]. intros _ Hs _. left.
+        split; [auto|]. split; [apply ext_refl|]. apply tree_stored_small. cbn; lia.
+      * assert (L2 : 2 <= length r' <= 16).
+        { split; [|rewrite Lr; lia]. rewrite Ers, app_length. subst zs. cbn [length]. cbn [length] in E1.
+          rewrite Ers, app_length in E1. cbn [length] in E1. lia. }
+        assert (Eh : node_hash H r' = Some (hc r')).
+        { unfold node_hash. destruct r'; [cbn in L2; lia|reflexivity]. }
+        rewrite Eh. rewrite (spec_root_step r') by lia. rewrite (layer1_single r') by lia. rewrite spec_root_one.
+        eexists. split; [reflexivity|]. split; [intros ->; reflexivity|].
+        intros -> Hs _. unfold node_bytes.
+        destruct (set_ext m (concat r') Hs) as [X|C]; [left|right; exact C].
+        split; [apply set_sound; auto|]. split; [exact X|].
+        apply tree_stored_unfold. split.
+        -- intros _ q Hq. replace (nchunks (length r')) with 1 in Hq by (unfold nchunks; lia).
+           assert (q = 0) by lia. subst q. unfold chunk_stored.
+           replace (chunk_at r' 0) with r' by (unfold chunk_at; cbn [Nat.mul skipn]; symmetry; apply firstn_all2; lia).
+           apply bm_gss.
+        -- rewrite (layer1_single r') by lia. apply tree_stored_small. cbn; lia.
+    + (* a higher root follows *)
+      assert (Nc : cl1 zs <> []).
+      { intro E. apply (f_equal (@length _)) in E. rewrite cl1_length in E.
+        change (@length bytes []) with 0 in E. lia. }
+      rewrite (spec_roots_cons _ Nc).
+      assert (Lcl : length (cl1 zs) < n) by (rewrite cl1_length; subst n; lia).
+      destruct r' as [|w r2] eqn:Erw.
+      * (* nothing at this level *)
+        assert (Hm0 : length zs mod 16 = 0) by (cbn [length] in Lr; lia).
+        assert (Ec : c = None) by (destruct c; cbn [olist length] in Lr; [lia|reflexivity]).
+        subst c. cbn [node_hash olist] in *.
+        destruct (IH _ Lcl (cl1 zs) None m store eq_refl (cl1_h32 zs) Fc) as (m' & E & P0 & P1).
+        rewrite <- (spec_roots_cons _ Nc). rewrite E. exists m'. cbn [olist] in *. rewrite !app_nil_r in *.
+        rewrite (spec_root_step zs) by lia. rewrite (layer1_full zs Hm0).
+        split; [reflexivity|]. split; [auto|]. intros St Hs Hb.
+        apply blocks_stored_unfold in Hb. destruct Hb as [Hb0 Hb1].
+        destruct (P1 St Hs Hb1) as [(S' & X' & T')|C]; [left|right; exact C].
+        split; [auto|]. split; [auto|]. apply tree_stored_unfold. split.
+        -- intros _ q Hq. replace (nchunks (length zs)) with (length zs / 16) in Hq by (unfold nchunks; lia).
+           apply X'. apply Hb0. exact Hq.
+        -- rewrite (layer1_full zs Hm0). exact T'.
+      * rewrite <- Erw in *. clear Erw.
+        assert (Lr1 : 1 <= length r' <= 16).
+        { split; [rewrite Lr in *; destruct r'; [discriminate|cbn; lia]|rewrite Lr; lia]. }
+        assert (Eh : node_hash H r' = Some (hc r')).
+        { unfold node_hash. destruct r'; [cbn in Lr1; lia|reflexivity]. }
+        rewrite Eh. unfold node_bytes.
+        set (m1 := if store then bm_set (hc r') (concat r') m else m).
+        assert (Fc1 : Forall h32 (olist (Some (hc r')))) by (constructor; [apply H_len|constructor]).
+        destruct (IH _ Lcl (cl1 zs) (Some (hc r')) m1 store eq_refl (cl1_h32 zs) Fc1) as (m' & E & P0 & P1).
+        rewrite <- (spec_roots_cons _ Nc). rewrite E. exists m'. cbn [olist] in *.
+        assert (El : layer1 (zs ++ olist c) = cl1 zs ++ [hc r']).
+        { subst r'. apply layer1_partial. rewrite <- Lr. exact Lr1. }
+        rewrite (spec_root_step (zs ++ olist c)) by (rewrite app_length; lia). rewrite El.
+        split; [reflexivity|]. split; [intros ->; subst m1; auto|].
+        intros -> Hs Hb. subst m1.
+        apply blocks_stored_unfold in Hb. destruct Hb as [Hb0 Hb1].
+        destruct (set_ext m (concat r') Hs) as [X1|C]; [|right; exact C].
+        fold (hc r') in X1.
+        destruct (P1 eq_refl (set_sound m _ Hs) (blocks_stored_ext _ _ _ X1 Hb1)) as [(S' & X' & T')|C];
+          [left|right; exact C].
+        split; [auto|]. split; [eauto using ext_trans|]. apply tree_stored_unfold. split.
+        -- intros _ q Hq. rewrite app_length in Hq.
+           replace (nchunks (length zs + length (olist c))) with (S (length zs / 16)) in Hq by (unfold nchunks; lia).
+           unfold chunk_stored. destruct (Nat.eq_dec q (length zs / 16)) as [->|Nq].
+           ++ rewrite chunk_at_last by lia. fold r'. apply X'. apply bm_gss.
+           ++ rewrite chunk_at_app by lia. apply X', X1. apply Hb0. lia.
+        -- rewrite El. exact T'.
+Qed.
+
 End Proofs.
